@@ -1,3 +1,3 @@
 SPECIFICATION Spec
-INVARIANTS Closed NoExcluded Minimal Idempotent NoConflictWithoutInclude KnownExtOnlyAdds KnownExtIsFixpoint EmitCase
+INVARIANTS Closed NoExcluded Minimal Idempotent NoConflictWithoutInclude KnownExtOnlyAdds KnownExtIsFixpoint OptionalNeedsNothingExcluded EmitCase
 CHECK_DEADLOCK FALSE
